@@ -112,11 +112,19 @@ def poly_post(pre, args, kwargs, result):
     return True
 
 
+def cfg_post(pre, args, kwargs, result):
+    return poly_post(pre, (args[0], True, False), {}, result)
+
+
 def install(ctx):
+    import puan.modules.configurator as cc
     monitor.attach(pg.AtLeast, "to_ge_polyhedron", poly_post, c01.snap)
+    monitor.attach(cc.StingyConfigurator, "ge_polyhedron", cfg_post, c01.snap, label="StingyConfigurator.ge_polyhedron")
 
 
 def gen_case(rng, tier, ctx, i):
+    if rng.random() < 0.12:
+        return c01.gen_case(random.Random(rng.getrandbits(32)), tier, ctx, i) if False else _cfg_case(rng)
     if rng.random() < 0.12:
         from . import c04
         ctx.count("count:bounded-sweep-formulas")
@@ -137,7 +145,21 @@ def _run_one(case, ctx):
     if adapters.is_leaf(m):
         raise monitor.OutOfScope()
     common.domain(m)
+    if case.get("configurator"):
+        ctx.count("count:configurator-polyhedra")
+        ctx.call("ge_polyhedron", lambda: m.ge_polyhedron)
+        return
     ctx.call("to_ge_polyhedron(True)", m.to_ge_polyhedron, True)
+
+
+def _cfg_case(rng):
+    from . import confgen
+    rec = confgen.gen_config(rng)
+    if rng.random() < 0.7:
+        rec["args"].append(confgen.V(rng.choice(confgen.ITEMS[:4])) if rng.random() < 0.5 else {"k": "Not", "id": None, "args": [confgen.V(rng.choice(confgen.ITEMS[:4]))]})
+        inner = {"k": "All", "id": None, "args": [{"k": "Not", "id": None, "args": [confgen.V(x)]} for x in rng.sample(confgen.ITEMS[:5], 2)]}
+        rec["args"].append({"k": "Imply", "id": None, "args": [inner, confgen.V(rng.choice(confgen.ITEMS[:5]))]})
+    return {"recipe": rec, "configurator": True}
 
 
 def run_case(case, ctx):
